@@ -25,6 +25,11 @@
     class-typed wrapper rules without names over several of them (one class holds 1, 1.0, True ... many times in a
     process), class names that are case variants of one another (Num / NUM / NuM, IdList / IDList / IDLIST) on any two
     or three classes; all the O1 / N2 / B1 / W1 / D1 / K1 checks run on them.
+    U1 hand-written model classes: small grammars whose classes are written by hand in a module of their own (class
+    attributes, tatsu dataclasses, fields declared by a declared base) under names that other namespaces hold too
+    (builtin exceptions / types / functions, globals of the synth and builder modules, names synthesized earlier in the
+    process), some classes left to synthesis below declared ones, next to a builtin-typed token rule, through every
+    container and entry point: every typed reduction is an instance of the class OBJECT declared under that name.
 """
 from __future__ import annotations
 
@@ -2398,7 +2403,15 @@ def run_concurrent(chk: Check):
         rotate = rng.random() < 0.4
         bases = sorted({n[len(gc.tag):] for n in gc.declared})
         warm = [b for b in bases if rng.random() < 0.25] if rng.random() < 0.5 else []
-        fails, detail, stats = parse_race(gc, texts, nthreads, arrangement, warm, rotate)
+        try:
+            fails, detail, stats = parse_race(gc, texts, nthreads, arrangement, warm, rotate)
+        except Exception as e:                              # noqa: BLE001  (the setup of a race: compile / reference parses)
+            bad += 1
+            chk.violation(f'concurrent-first-use:{arrangement}:setup-raises-{type(e).__name__}',
+                          f'setting up a race ({arrangement}) raises {type(e).__name__}: {e}'[:300],
+                          {'oracle': 'C1 one class per type name under concurrent first use', 'grammar': gc.text,
+                           'inputs': texts, 'arrangement': arrangement})
+            continue
         longest = max(longest, stats['hold'])
         chk.case(f'race:{gc.text}|{texts}|{nthreads}|{arrangement}|{warm}|{rotate}', nontrivial=stats['classes'] > 0)
         chk.count('C1.parse-races')
@@ -2752,6 +2765,373 @@ def run_containers_small(chk: Check):
     return bad
 
 
+# ------------------------------------------------------------------ U1: hand-written model classes
+# The property speaks of "the class of that name".  Until here every class the check handed to a builder came from the
+# generated model module, and every class name was `<tag>Word`: a name that exists in no other namespace.  A user who
+# writes the model classes by hand (docs: typedefs=[module] / constructors=[...]) names them after the concepts of the
+# language - Warning, Exception, slice, range, filter, print, Any, Node, Config ... - and such a name is ALSO a key of
+# other namespaces the builder looks into or lives next to: the builtins (consulted for the converting type names),
+# the globals of tatsu/objectmodel/synth.py (the process-wide synth registry IS that module's vars()), the globals of
+# the builder module, and the classes synthesized earlier in the process.  Family: small grammars whose classes are
+# written by hand in a module of their own (class attributes `x = None`, tatsu dataclasses, fields declared by a
+# declared base), under names drawn from those namespaces, some left undeclared below a declared base (synthesized on
+# top of a hand-written class), next to a builtin-typed token rule (the converting lookup is exercised by the same
+# parse), handed over through every container / entry point.
+# Oracle (from the property text, by class OBJECT, nothing about how the builder searches): walking the traced
+# derivation and the model tree side by side, every typed reduction is an instance of exactly the class object
+# declared under that name (or, for an undeclared name, of the registered synthesized class), the declared ancestors'
+# class objects are in its MRO in chain order, its public attributes are the AST's keys with the AST's values,
+# builtin-typed leaves are the converted values; erasing the nodes gives the plain AST; navigation by brute force.
+U1_CONVERTERS = {'int', 'float', 'str', 'bool', 'tuple', 'bytes', 'bytearray', 'complex', 'frozenset', 'object'}
+U1_SYNTH_GLOBALS = ['Any', 'types', 'threading', 'annotations', 'BaseNode', 'SynthNode', 'nodedataclass', 'synthesize',
+                    'registered_synthetics']
+U1_COMPILE_HOWS = ['compile-typedefs-module', 'compile-typedefs-mapping', 'compile-constructors',
+                   'compile-typedefs-namespace', 'compile-builderconfig', 'compile-semantics']
+U1_PARSE_HOWS = ['parse-time-semantics-typedefs', 'parse-time-semantics-constructors', 'module-own-semantics',
+                 'api-parse-typedefs']
+U1_NEEDS_ALL_DECLARED = {'compile-constructors', 'parse-time-semantics-constructors', 'module-own-semantics'}
+
+
+def u1_name_pools():
+    """class names that are also keys of another namespace the model builder looks into or lives in (read from the
+    running code, sorted: deterministic for a given tree); only names that can head a class statement and that the
+    grammar compiler leaves alone (mangle), and not the converting type names of the property text"""
+    import keyword
+    from tatsu.objectmodel import builder as buildermod
+    from tatsu.objectmodel import synth as synthmod
+
+    def usable(n):
+        return (n.isidentifier() and not n.startswith('_') and not keyword.iskeyword(n) and not keyword.issoftkeyword(n)
+                and mangle(n) == n and n not in U1_CONVERTERS)
+    bt = vars(builtins)
+    pools = {
+        'builtin-exception-name': sorted(n for n, v in bt.items() if usable(n) and isinstance(v, type) and issubclass(v, BaseException)),
+        'builtin-type-name': sorted(n for n, v in bt.items() if usable(n) and isinstance(v, type) and not issubclass(v, BaseException)),
+        'builtin-function-name': sorted(n for n, v in bt.items() if usable(n) and isinstance(v, types.BuiltinFunctionType)),
+        'synth-module-global': [n for n in U1_SYNTH_GLOBALS if n in vars(synthmod) and usable(n)],
+        'builder-module-global': sorted(n for n, v in vars(buildermod).items()
+                                        if usable(n) and n not in bt and n not in U1_SYNTH_GLOBALS
+                                        and getattr(v, '__module__', '') != synthmod.__name__),
+    }
+    return {k: v for k, v in pools.items() if v}
+
+
+class DeclCase:
+    """one small grammar + the source of the hand-written module of its model classes"""
+
+    def __init__(self, rng, tag, pools, k):
+        self.tag = tag
+        self.builtin = rng.choice(BUILTINS)
+        nrules = rng.randint(2, 4)
+        # -- names: every grammar has one or two names from the shared namespaces (the pool goes by k: every pool is
+        # met in every run), one name synthesized earlier in the process, the rest are names of its own
+        pool_names = sorted(pools)
+        hazard = [pool_names[k % len(pool_names)]] + ([rng.choice(pool_names)] if rng.random() < 0.5 else [])
+        self.pool_of: dict = {}
+        fresh = itertools.count()
+
+        def own():
+            n = f'{tag}T{next(fresh)}'
+            self.pool_of[n] = 'own-name'
+            return n
+        names_: list = []
+        for p in hazard:
+            cands = [n for n in pools[p] if n not in names_]
+            n = rng.choice(cands)
+            self.pool_of[n] = p
+            names_.append(n)
+        before = f'{tag}P0'
+        self.pool_of[before] = 'synthesized-earlier-in-the-process'
+        names_.append(before)
+        self.presynth = [before]
+        while len(names_) < nrules + 3:
+            names_.append(own())
+        rng.shuffle(names_)
+        # -- declared forest (depth <= 2) over the names; a declared class has declared ancestors only; one or two
+        # classes of own names may be left to synthesis below a declared class or below the base type
+        self.parent: dict = {}
+        depth: dict = {}
+        for i, n in enumerate(names_):
+            cands = [p for p in names_[:i] if depth[p] < 2]
+            p = rng.choice(cands) if cands and rng.random() < 0.6 else None
+            self.parent[n] = p
+            depth[n] = 0 if p is None else depth[p] + 1
+        leaves = [n for n in names_ if n not in self.parent.values() and self.pool_of[n] == 'own-name']
+        leaves.sort(key=lambda n: self.parent[n] is None)          # (those below a declared class first)
+        self.undeclared = set(leaves[:rng.choice([0, 0, 1, 2])])
+        self.declared_names = [n for n in names_ if n not in self.undeclared]
+        # -- rules: the start rule and r0.. build leaves-or-inner classes; every hazard name heads a rule when it can
+        heads = [n for n in names_ if self.pool_of[n] != 'own-name'] + [n for n in names_ if self.pool_of[n] == 'own-name']
+        doc = heads.pop(rng.randrange(len(heads))) if rng.random() < 0.3 else heads.pop()
+        self.rule_class = {'start': doc}
+        self.fields: dict = {doc: ['els']}
+        lines = [f'@@grammar :: {tag}', f'start::{self.chain(doc)} = els:{{ item }}* $ ;',
+                 'item = ' + ' | '.join(f'r{i}' for i in range(nrules)) + ' ;']
+        self.bodies = []
+        for i in range(nrules):
+            c = heads[i]
+            self.rule_class[f'r{i}'] = c
+            body = rng.choice('AB')
+            self.bodies.append(body)
+            if body == 'A':
+                lines.append(f"r{i}::{self.chain(c)} = '{i}' x:/[a-z]+/ [ '(' y:item ')' ] ;")
+                self.fields[c] = ['x', 'y']
+            else:
+                lines.append(f"r{i}::{self.chain(c)} = '{i}' val:num '[' kids:{{ item }} ']' ;")
+                self.fields[c] = ['val', 'kids']
+        lines.append(f'num::{self.builtin} = /\\d+/ ;')
+        rest = lines[3:]
+        rng.shuffle(rest)
+        self.text = '\n'.join(lines[:3] + rest) + '\n'
+        self.nrules = nrules
+        self.styles = {n: rng.choice(['class-attributes', 'class-attributes', 'dataclass', 'fields-of-declared-base'])
+                       for n in self.declared_names}
+        self.source = self.module_source()
+
+    def ancestors(self, n):
+        out = []
+        while self.parent.get(n):
+            n = self.parent[n]
+            out.append(n)
+        return out
+
+    def chain(self, n):
+        return '::'.join([n] + self.ancestors(n))
+
+    def module_source(self):
+        """what a user writes: one class statement per declared name, bases first"""
+        out = ['from __future__ import annotations', 'from typing import Any as _Any',
+               'from tatsu.objectmodel import Node as _Node, ModelBuilderSemantics as _Semantics, tatsudataclass as _dataclass',
+               '', '']
+        done: set = set()
+        order = sorted(self.declared_names, key=lambda n: len(self.ancestors(n)))
+        # (fields a class gets from a declared base: pushed up to the first declared ancestor, or kept when there is none)
+        extra: dict = {n: [] for n in order}
+        for n in order:
+            if self.styles[n] == 'fields-of-declared-base' and self.parent.get(n):
+                extra[self.parent[n]] += self.fields.get(n, [])
+        for n in order:
+            base = self.parent.get(n) or '_Node'
+            fields = list(dict.fromkeys(extra[n] + (self.fields.get(n, [])
+                                                    if not (self.styles[n] == 'fields-of-declared-base' and self.parent.get(n)) else [])))
+            if self.styles[n] == 'dataclass':
+                out += ['@_dataclass', f'class {n}({base}):'] + ([f'    {f}: _Any = None' for f in fields] or ['    pass'])
+            else:
+                out += [f'class {n}({base}):'] + ([f'    {f} = None' for f in fields] or ['    pass'])
+            out += ['', '']
+            done.add(n)
+        out += [f'class _{self.tag}Semantics(_Semantics):',
+                '    def __init__(self, constructors=None, **kwargs):',
+                '        constructors = list(constructors or [])',
+                '        constructors += _Semantics.types_defined_in(globals())',
+                '        _Semantics.__init__(self, basetype=_Node, constructors=constructors, **kwargs)', '']
+        return '\n'.join(out)
+
+    def sentence(self, rng, depth):
+        def item(d):
+            i = rng.randrange(self.nrules)
+            if self.bodies[i] == 'A':
+                s = f'{i}{rng.choice(["a", "bc", "foo"])}'
+                return s + (f'({item(d - 1)})' if d > 0 and rng.random() < 0.6 else '')
+            inner = ' '.join(item(d - 1) for _ in range(rng.randint(0, 2))) if d > 0 else ''
+            return f'{i}{rng.choice([0, 1, 7, 12])}[{inner}]'
+        return ' '.join(item(depth) for _ in range(rng.randint(1, 3)))
+
+
+def declared_failures(traced, model, dc: DeclCase, classes: dict) -> list:
+    """[(failure kind, class name)] - the traced derivation and the model tree side by side"""
+    from tatsu.objectmodel import synth as synthmod
+    out: list = []
+
+    def fail(kind, name):
+        if (kind, name) not in out:
+            out.append((kind, name))
+
+    def go(t, m, under):
+        if isinstance(t, Mark):
+            chain = [mangle(s) for s in t.spec.split('::')]
+            head = chain[0]
+            if head in dc.parent or head in classes:
+                want = classes.get(head)
+                if not isinstance(m, BaseNode):
+                    what = 'builtin-object' if type(m).__module__ == 'builtins' else 'not-a-node'
+                    fail(f'typed-rule-gives-{what}-instead-of-' + ('the-declared-class' if want else 'a-synthesized-class'), head)
+                    return
+                cls = type(m)
+                if want is not None:
+                    if cls is not want:
+                        other = ('a-synthesized-class' if cls.__module__ == synthmod.__name__
+                                 else 'a-builtin' if cls.__module__ == 'builtins' else 'another-class')
+                        fail(f'node-of-{other}-instead-of-the-declared-class', head)
+                elif cls.__name__ != head or cls.__module__ != synthmod.__name__ or cls is not registered_class(head):
+                    fail('node-not-of-the-registered-synthesized-class', head)
+                # declared ancestors: their class objects, in chain order, in the MRO
+                mro = list(cls.__mro__)
+                pos = 0
+                for a in dc.ancestors(head):
+                    wa = classes.get(a)
+                    idx = [i for i, c in enumerate(mro) if (c is wa if wa is not None else c.__name__ == a)]
+                    if not idx or idx[0] <= pos:
+                        fail('declared-base-class-not-in-the-mro', head)
+                        break
+                    pos = idx[0]
+                inner = t.ast
+                if isinstance(inner, Mapping):
+                    got = {k: v for k, v in vars(m).items()
+                           if not k.startswith('_') and k not in ('ast', 'ctx', 'parseinfo')}
+                    if set(inner) - set(got) or any(got[k] is not None for k in set(got) - set(inner)):
+                        fail('attributes-are-not-the-named-elements', head)
+                        return
+                    for k in inner:
+                        go(inner[k], got[k], head)
+                else:
+                    go(inner, vars(m).get('ast'), head)
+                return
+            # a builtin type name converts the value
+            fn = vars(builtins)[head]
+            try:
+                val = fn(t.ast)
+            except Exception:                               # noqa: BLE001
+                return
+            if type(m) is not type(val) or m != val:
+                fail('builtin-typed-leaf-not-converted', head)
+            return
+        if isinstance(t, Mapping):
+            if not isinstance(m, Mapping) or isinstance(m, BaseNode) or set(t) != set(m):
+                fail('value-differs-from-the-ast', under)
+                return
+            for k in t:
+                go(t[k], m[k], under)
+            return
+        if isinstance(t, (list, tuple)):
+            if not isinstance(m, (list, tuple)) or len(t) != len(m):
+                fail('value-differs-from-the-ast', under)
+                return
+            for a, b in zip(t, m):
+                go(a, b, under)
+            return
+        if type(t) is not type(m) or t != m:
+            fail('value-differs-from-the-ast', under)
+    go(traced, model, '<top>')
+    return out
+
+
+def run_declared(chk: Check):
+    from tatsu.objectmodel.builder import BuilderConfig
+    rng = random.Random(f'C07-U1-{chk.seed}')       # own stream, after everything else of the grammar streams
+    pools = u1_name_pools()
+    ngram = 10 if chk.quick else 120
+    bad = 0
+    reported: set = set()
+    for k in range(ngram):
+        tag = f'{RUN}U{next(_seq)}x'
+        dc = DeclCase(rng, tag, pools, k)
+        texts = sorted({dc.sentence(rng, rng.randint(0, 2)) for _ in range(4 if chk.quick else 8)}, key=lambda t: (len(t), t))
+        chk.count('U1.grammars')
+        for n in dc.declared_names:
+            chk.count('U1.declared.' + dc.pool_of[n])
+            chk.count('U1.style.' + dc.styles[n])
+        chk.count('U1.undeclared-below-declared', sum(1 for n in dc.undeclared if dc.parent.get(n)))
+        chk.count('U1.undeclared', len(dc.undeclared))
+        chk.count('U1.rules-typed-with-a-shared-namespace-name',
+                  sum(1 for c in dc.rule_class.values() if dc.pool_of[c] not in ('own-name',)))
+
+        def violation(how, kind, name, text, extra=None):
+            pool = dc.pool_of.get(name, 'builtin-converter' if name in vars(builtins) else None)
+            if pool is None:
+                # (no single class to blame: the shared namespaces the names of the grammar's rule classes come from)
+                pool = '+'.join(sorted({dc.pool_of[c] for c in dc.rule_class.values()} - {'own-name'})) or 'own-names'
+            sig = f'declared:{pool}:{how}:{kind}'
+            if sig in reported:
+                return
+            reported.add(sig)
+            chk.violation(sig, f'hand-written model classes ({how}): {kind} - class {name!r} ({pool})',
+                          dict(extra or {}, oracle='U1 nodes are instances of the hand-written classes given to the call',
+                               grammar=dc.text, model_module=dc.source, input=text, class_name=name, way=how,
+                               undeclared=sorted(dc.undeclared)))
+        try:
+            gp = tatsu.compile(dc.text, name=tag + 'p')
+            mod = load_model_module(dc.source, f'verif_c07_model_decl_{tag}')
+        except Exception as e:                              # noqa: BLE001
+            bad += 1
+            violation('setup', f'raises-{type(e).__name__}', '<none>', '', {'error': str(e)[:300]})
+            continue
+        classes = {n: vars(mod)[n] for n in dc.declared_names}
+        for n in dc.presynth:
+            # the process has met the name before: a parse without containers synthesized a class for it
+            ModelBuilderSemantics()._default({'x': 'a'}, n)
+        everything = not dc.undeclared
+        # (an uncached compile costs 0.1 - 0.2 s: a compile-time way for every second grammar in the quick tier, in turn;
+        # tatsu.parse() compiles too)
+        hows = rng.sample(U1_PARSE_HOWS[:3], 2) + (['api-parse-typedefs'] if rng.random() < 0.25 else [])
+        if k % 2 == 0 or not chk.quick:
+            hows.insert(0, U1_COMPILE_HOWS[(k // 2 + chk.seed) % len(U1_COMPILE_HOWS)])
+        hows = [h for h in hows if everything or h not in U1_NEEDS_ALL_DECLARED]
+        if not hows:
+            hows = ['parse-time-semantics-typedefs']
+        keep: list = []
+
+        def parser_of(how):
+            namespace = type('V7Models', (), {'__module__': mod.__name__, **classes})
+            if how == 'compile-typedefs-module':
+                return tatsu.compile(dc.text, name=tag + 'c', typedefs=[mod]).parse
+            if how == 'compile-typedefs-mapping':
+                return tatsu.compile(dc.text, name=tag + 'c', typedefs=[dict(classes)]).parse
+            if how == 'compile-typedefs-namespace':
+                return tatsu.compile(dc.text, name=tag + 'c', typedefs=[namespace]).parse
+            if how == 'compile-constructors':
+                return tatsu.compile(dc.text, name=tag + 'c', constructors=list(classes.values())).parse
+            if how == 'compile-builderconfig':
+                return tatsu.compile(dc.text, name=tag + 'c', builderconfig=BuilderConfig(typedefs=[mod])).parse
+            if how == 'compile-semantics':
+                keep.append(ModelBuilderSemantics(typedefs=[dict(classes)]))
+                return tatsu.compile(dc.text, name=tag + 'c', semantics=keep[-1]).parse
+            if how == 'parse-time-semantics-typedefs':
+                return lambda text: gp.parse(text, semantics=ModelBuilderSemantics(typedefs=[mod]))
+            if how == 'parse-time-semantics-constructors':
+                return lambda text: gp.parse(text, semantics=ModelBuilderSemantics(constructors=list(classes.values())))
+            if how == 'module-own-semantics':
+                return lambda text: gp.parse(text, semantics=vars(mod)[f'_{tag}Semantics']())
+            if how == 'api-parse-typedefs':
+                return lambda text: tatsu.parse(dc.text, text, name=tag + 'a', typedefs=[namespace, {}])
+            raise ValueError(how)
+        for how in hows:
+            chk.count('U1.how.' + how)
+            parse = None
+            for text in texts:
+                try:
+                    plain = gp.parse(text)
+                    traced = gp.parse(text, semantics=TraceSemantics())
+                except Exception:                           # noqa: BLE001  (the generator writes sentences of the grammar)
+                    chk.count('U1.inputs.rejected-by-plain-parse')
+                    continue
+                chk.case(f'declared:{dc.text}\n{dc.source}\n{how}\n{text}', nontrivial=len(text) > 3)
+                chk.count('U1.inputs')
+                try:
+                    parse = parse or parser_of(how)
+                    m = parse(text)
+                except Exception as e:                      # noqa: BLE001
+                    bad += 1
+                    violation(how, f'raises-{type(e).__name__}', '<none>', text, {'error': str(e)[:300]})
+                    break
+                fails = declared_failures(traced, m, dc, classes)
+                # (the side-by-side walk ties the model tree to the derivation; the derivation erases to the plain AST.
+                # erase_model() is not used here: a dataclass node carries the None-valued fields of its declared bases)
+                if plain_json(strip_conv(erase_marks(traced))) != plain_json(plain):
+                    fails.append(('derivation-does-not-erase-to-the-plain-ast', '<none>'))
+                if not fails:
+                    fails += [(f'nav-{f}', '<none>') for f in check_navigation(m, 'declared')]
+                for kind, name in fails:
+                    bad += 1
+                    violation(how, kind, name, text)
+                if fails:
+                    break
+    chk.obligation('U1: hand-written model classes under names that other namespaces also hold (builtins, synth / builder '
+                   'module globals, names synthesized earlier), declared / dataclass / inherited fields, undeclared classes '
+                   'below declared ones, every container and entry point: nodes are instances of the declared classes',
+                   'oracle', bad == 0 and chk.dist.get('U1.rules-typed-with-a-shared-namespace-name', 0) > 0)
+
+
 # ------------------------------------------------------------------ T1 constants
 def constants(chk: Check, mr: ModelRun):
     model = sorted(names(mr.ask(['(basekeys)'])[0]))
@@ -2803,6 +3183,15 @@ def main():
                 'over 1-4 token rules (bare, override, named group), pair / seq / start around them, full chains X, X::Base, '
                 'X::Mid::Root, two or three classes named by case variants of one stem, sentences over small token pools '
                 '(0 1 2 7 10, 0.0 1.0 2.0 2.5 10.0, ?t ?); W1 method universe weighted towards the twin names. '
+                'U1: 10 (thorough 120) small grammars (start + 2-4 rules with named elements, two bodies, one '
+                'int/float/str/bool-typed token rule) whose classes are hand-written in an exec\'d module: names from the '
+                'pools builtin exception / type / function names (read from vars(builtins), minus the converting type names), '
+                'synth-module globals, builder-module globals (every pool in every run), one name synthesized earlier in the '
+                'process, own names; a declared forest of depth <= 2 written as full chains; styles `x = None` / tatsu '
+                'dataclass / fields declared by the declared base; 0-2 own-name leaves left undeclared (synthesized below a '
+                'declared class); handed over by compile(typedefs=[module | mapping | namespace class]), constructors=, '
+                'builderconfig=, semantics=, parse-time ModelBuilderSemantics(typedefs= | constructors=), the module\'s own '
+                'semantics subclass, tatsu.parse(typedefs=). '
                 'Non-trivial: more than one node / input longer than 3 chars / history longer than 1; distinct by content hash.')
     chk.trusted += ['the canonicaliser Canon (Python object graph -> ObjModel.value, same case order as Node._cached_children)',
                     'oracle tables: iteration order of the Python set `pub.keys() - vars(BaseNode).keys()` per node '
@@ -2824,7 +3213,12 @@ def main():
                     'module name; the module file lives under /var/tmp/verif-c07-<pid> for the reload flavour; '
                     'layout_containers() partitions them over mappings and namespace classes (type(..) with the module name)',
                     'L1 generator (own Python code): LexCase, case_variants(); its verdicts come from the O1 / W1 / D1 / B1 / K1 '
-                    'oracles; mixed_equal_scalars() only counts coverage']
+                    'oracles; mixed_equal_scalars() only counts coverage',
+                    'U1 (own Python code): DeclCase writes the grammar and the source of the hand-written module (exec\'d under '
+                    'a verif_c07_model_decl_ name); declared_failures() walks the TraceSemantics derivation and the model tree '
+                    'side by side and compares class OBJECTS (declared: vars(module)[name]; undeclared: synthesize(name, ())), '
+                    'MRO positions of the declared ancestors, public vars() against the AST keys (None-valued extra fields '
+                    'allowed: inherited declarations), builtin-typed leaves against the builtin applied to the matched text']
     chk.assumptions += ['setord is a permutation of its input minus vars(BaseNode) names (Python set semantics)',
                         'vars(node) keys are distinct (dict) and node identities in a tree are distinct (tree-shaped) for the exactly-once statements',
                         'parent pointers are those present after children() has run on the parent (the code assigns them lazily there)',
@@ -2833,6 +3227,9 @@ def main():
                         'generated class may carry the None-valued fields it inherits from the class of another rule',
                         'C1: a race is two or three threads started together on one never-seen set of class names; only '
                         'interleavings in which the later threads arrive during the first thread\'s class creation are driven',
+                        'U1: the hand-written module declares every named element of a rule as an attribute of the rule\'s class '
+                        'or of a declared base (BaseNode.__post_init__ fills declared attributes only), a declared class has '
+                        'declared ancestors only, and chains are written in full',
                         'walker classes get no new walk_ methods after their class statement (no monkeypatching): [has w] is fixed; '
                         'C07_dispatch_cache_transparent assumes that same-named node classes resolve alike (cache keyed by __qualname__)']
     st = chk.coq()
@@ -2845,6 +3242,7 @@ def main():
         run_registry(chk, mr)
         try:
             run_grammars(chk, mr)
+            run_declared(chk)
             run_concurrent(chk)
         finally:
             drop_scratch()
